@@ -10,6 +10,7 @@ CONSTANTS
   GenNsChoices = {FALSE, TRUE}
   Spellings <- AllSpellings
   CanonNs = FALSE
+  SupportFromRootParent = FALSE
 INVARIANT Refines
 INVARIANT IndexClosed
 INVARIANT MadeIndexed
